@@ -162,9 +162,46 @@ def _kar_rules(v):
     return [("push", "<character>")]
 
 
+def _map_table(fn):
+    """The char → Option<char> function `fn` as a finite map over the Bengali block (+ probes); None if it cannot be evaluated."""
+    from engine.analyses import BENGALI_DOMAIN
+    pe = MAP_EVAL.get("pe")
+    if pe is None:
+        return None
+    out = {}
+    for c in BENGALI_DOMAIN:
+        r = pe.call(fn, [ord(c)])
+        if not (isinstance(r, tuple) and r and r[0] in ("some", "none")):
+            return None
+        if r[0] == "some":
+            if not isinstance(r[1], int):
+                return None
+            out[c] = chr(r[1])
+    return out
+
+
+MAP_EVAL = {}
+
+
 def table_effect(v, after_hasanta):
     cs = v.char_switch()
     if cs is None:
+        # the table written as a function char → Option<char> (a constant array searched, a match returning Some(..)): read as a finite map
+        for a, val in v.s.atoms:
+            if a[0] == "char_map" and val is not None:
+                tab = _map_table(a[1])
+                if tab is None:
+                    raise Undecided("the rows of the sign table %s (cannot be evaluated as a finite map)" % a[1].split("::")[-1])
+                which = "hasanta+sign" if after_hasanta else "automatic-vowel"
+                missing = [s for s in TABLE if s not in tab]
+                if missing:
+                    raise Mismatch("the sign(s) %s have no row in the %s table" % (" ".join("U+%04X" % ord(m) for m in missing), which))
+                wrong = [s for s in tab if tab[s] != TABLE.get(s)]
+                if wrong:
+                    raise Mismatch("row for %s of the %s table is not the sign's own vowel" % (" ".join("U+%04X" % ord(m) for m in sorted(wrong)), which))
+                if val is False:
+                    return []
+                return ([("pop",)] if after_hasanta else []) + [("push", "<map:%s>" % a[1])]
         raise Undecided("which vowel sign was typed (no match on the character)")
     allv, val = cs
     if val == "otherwise":
@@ -214,6 +251,7 @@ def run(ctx):
     marks_lits = set()
     from engine.analyses import PredEval
     pe = PredEval(prog)
+    MAP_EVAL["pe"] = pe
     cls = classes.class_fns(prog)
     feas = [s for s in S if kvp.feasible(s, pe, cls)]
     off = [s for s in feas if not any(a == ("cfg", "get_fixed_old_kar_order") and v is True for a, v in s.atoms)]
@@ -352,6 +390,8 @@ def _signature(s):
             parts.append("%s%sU+%04X" % (a[0].split("_eq")[0], "=" if v else "≠", ord(a[1]) if isinstance(a[1], str) else a[1]))
         elif a[0] in ("char_switch", "rmc_switch", "popped_switch", "value_last_switch"):
             parts.append("%s=%s" % (a[0].split("_")[0], "other" if v == "otherwise" else "|".join("U+%04X" % c for c in v)))
+        elif a[0] in ("char_map", "rmc_map"):
+            parts.append("%s%s(%s)" % ("" if v else "!", a[1].split("::")[-1], a[0].split("_")[0]))
         elif a[0] in ("char_pred", "rmc_pred"):
             parts.append("%s%s(%s)" % ("" if v else "!", a[1], a[0].split("_")[0]))
         elif a[0] == "rmc_in":
@@ -370,7 +410,7 @@ def _fmt(effs):
     out = []
     for e in effs:
         if e[0] == "push":
-            out.append("push(%s)" % (e[1] if e[1].startswith("<") else "U+%04X" % ord(e[1])))
+            out.append("push(%s)" % (e[1] if e[1].startswith("<") or len(e[1]) != 1 else "U+%04X" % ord(e[1])))
         elif e[0] == "push_str":
             out.append("push_str(%s)" % e[1])
         elif e[0] == "pending":
